@@ -28,6 +28,10 @@
 //        directly before and after; slicew: "A\\0" before and after, hostile for wide strings), as an exact-size heap
 //        object (ASan variant sees any over/under-read), or in a mapping that ends / starts at a PROT_NONE page
 //   pguard <none|slicea|slicew>   blocks of the persistent iterator are handed over as such slices (takes effect at piter)
+// Arguments of the entry points (C13 part 6): every entry point with non-default, distinguishable flags and timeout
+//   ft <rmem|rfile|rfd|rblocks|smem|sfile|sfd|sblocks> <flags> <timeout> <hex>
+//        rules-level: both passed to yr_rules_scan_*; scanner-level: yr_scanner_set_flags / yr_scanner_set_timeout first;
+//        *blocks: the bytes as the single block of a fresh position-keeping iterator with a file_size function
 // Iterator semantics ("position keeping"): the iterator remembers the index of the last block it delivered
 // (-1 at piter).  first(): if ready deliver block 0.  next(): if ready deliver block last+1.  A not-ready answer
 // changes nothing but last_error.  Hence next() after a not-ready first() delivers block 0: this is what an
@@ -303,6 +307,45 @@ static void fd_cmds(HS* s, const char* c, char* p)
   }
 }
 
+// ---- flags and timeout through every entry point
+static void ft_cmd(HS* s, char* p)
+{
+  FILE* o = s->out;
+  char* e = tok(&p);
+  int flags = atoi(tok(&p));
+  int timeout = atoi(tok(&p));
+  size_t len;
+  uint8_t* b = h_unhex(tok(&p), &len);
+  char path[64] = "";
+  int fd = -1, rc = -1;
+  int is_file = !strcmp(e + 1, "file"), is_fd = !strcmp(e + 1, "fd"), is_blocks = !strcmp(e + 1, "blocks");
+  if (is_file || is_fd) { fd = mktmp(path, b, len); lseek(fd, 0, SEEK_SET); }
+  if (is_blocks)
+  {
+    for (int i = 0; i < s->nblk; i++) free(s->blk_data[i]);
+    s->nblk = 1; s->blk_base[0] = 0; s->blk_len[0] = len;
+    s->blk_data[0] = (uint8_t*) malloc(len + 1); if (len) memcpy(s->blk_data[0], b, len);
+    s->fsz = len; s->fsz_known = 1; s->nr_len = 0; s->nr_call = 0;
+    P.last = -1; P.it.context = NULL; P.it.first = p_first; P.it.next = p_next; P.it.last_error = ERROR_SUCCESS;
+    P.it.file_size = p_fsize;
+    for (int i = 0; i < 64; i++) { free(P.gbuf[i]); P.gbuf[i] = NULL; }
+  }
+  if (e[0] == 's') { yr_scanner_set_flags(s->scanner[s->cur], flags); yr_scanner_set_timeout(s->scanner[s->cur], timeout); }
+  s->msg_index = 0;
+  fprintf(o, "scan msgs=");
+  if (!strcmp(e, "rmem")) rc = yr_rules_scan_mem(cur_rules(s), b, len, flags, scan_cb, s, timeout);
+  else if (!strcmp(e, "rfile")) rc = yr_rules_scan_file(cur_rules(s), path, flags, scan_cb, s, timeout);
+  else if (!strcmp(e, "rfd")) rc = yr_rules_scan_fd(cur_rules(s), fd, flags, scan_cb, s, timeout);
+  else if (!strcmp(e, "rblocks")) rc = yr_rules_scan_mem_blocks(cur_rules(s), &P.it, flags, scan_cb, s, timeout);
+  else if (!strcmp(e, "smem")) rc = yr_scanner_scan_mem(s->scanner[s->cur], b, len);
+  else if (!strcmp(e, "sfile")) rc = yr_scanner_scan_file(s->scanner[s->cur], path);
+  else if (!strcmp(e, "sfd")) rc = yr_scanner_scan_fd(s->scanner[s->cur], fd);
+  else if (!strcmp(e, "sblocks")) rc = yr_scanner_scan_mem_blocks(s->scanner[s->cur], &P.it);
+  fprintf(o, " rc=%d\n", rc);
+  if (fd >= 0) { close(fd); unlink(path); }
+  free(b);
+}
+
 // ---- hostile neighbours
 static uint8_t* guarded_copy(const uint8_t* b, size_t len, int mode)
 {
@@ -399,6 +442,7 @@ static void proto_cmd(HS* s, char* line)
   else if (!strcmp(c, "pbits")) p_bits(s);
   else if (!strcmp(c, "pmode")) P.naive = !strcmp(tok(&p), "naive");
   else if (!strcmp(c, "gscan")) gscan_cmd(s, p);
+  else if (!strcmp(c, "ft")) ft_cmd(s, p);
   else if (!strcmp(c, "pguard")) { char* t = tok(&p); P.guard = !strcmp(t, "slicea") ? 1 : !strcmp(t, "slicew") ? 2 : 0; }
   else if (!strcmp(c, "own")) own_cmd(s, p);
   else if (!strcmp(c, "ownpath")) ownpath_cmd(s, p);
